@@ -132,24 +132,24 @@ static void op_allocparse(int nt, char **t) {
 static void op_freezero(int nt, char **t) {
     (void) nt; (void) t;
     trace_on = 1;
-    { struct libwifi_frame o; memset(&o, 0, sizeof o); LIB(libwifi_free_wifi_frame(&o)); }
-    { struct libwifi_bss o; memset(&o, 0, sizeof o); LIB(libwifi_free_bss(&o)); }
-    { struct libwifi_sta o; memset(&o, 0, sizeof o); LIB(libwifi_free_sta(&o)); }
-    { struct libwifi_data o; memset(&o, 0, sizeof o); LIB(libwifi_free_data(&o)); }
-    { struct libwifi_wpa_auth_data o; memset(&o, 0, sizeof o); LIB(libwifi_free_wpa_data(&o)); }
-    { struct libwifi_beacon o; memset(&o, 0, sizeof o); LIB(libwifi_free_beacon(&o)); }
-    { struct libwifi_probe_req o; memset(&o, 0, sizeof o); LIB(libwifi_free_probe_req(&o)); }
-    { struct libwifi_probe_resp o; memset(&o, 0, sizeof o); LIB(libwifi_free_probe_resp(&o)); }
-    { struct libwifi_assoc_req o; memset(&o, 0, sizeof o); LIB(libwifi_free_assoc_req(&o)); }
-    { struct libwifi_assoc_resp o; memset(&o, 0, sizeof o); LIB(libwifi_free_assoc_resp(&o)); }
-    { struct libwifi_reassoc_req o; memset(&o, 0, sizeof o); LIB(libwifi_free_reassoc_req(&o)); }
-    { struct libwifi_reassoc_resp o; memset(&o, 0, sizeof o); LIB(libwifi_free_reassoc_resp(&o)); }
-    { struct libwifi_auth o; memset(&o, 0, sizeof o); LIB(libwifi_free_auth(&o)); }
-    { struct libwifi_deauth o; memset(&o, 0, sizeof o); LIB(libwifi_free_deauth(&o)); }
-    { struct libwifi_disassoc o; memset(&o, 0, sizeof o); LIB(libwifi_free_disassoc(&o)); }
-    { struct libwifi_timing_advert o; memset(&o, 0, sizeof o); LIB(libwifi_free_timing_advert(&o)); }
-    { struct libwifi_action o; memset(&o, 0, sizeof o); LIB(libwifi_free_action(&o)); LIB(libwifi_free_action_detail(&o.fixed_parameters.details)); }
-    { struct libwifi_tagged_parameter o; memset(&o, 0, sizeof o); LIB(libwifi_free_tag(&o)); }
+    { struct libwifi_frame o; memset(&o, 0, sizeof o); launder(&o); LIB(libwifi_free_wifi_frame(&o)); }
+    { struct libwifi_bss o; memset(&o, 0, sizeof o); launder(&o); LIB(libwifi_free_bss(&o)); }
+    { struct libwifi_sta o; memset(&o, 0, sizeof o); launder(&o); LIB(libwifi_free_sta(&o)); }
+    { struct libwifi_data o; memset(&o, 0, sizeof o); launder(&o); LIB(libwifi_free_data(&o)); }
+    { struct libwifi_wpa_auth_data o; memset(&o, 0, sizeof o); launder(&o); LIB(libwifi_free_wpa_data(&o)); }
+    { struct libwifi_beacon o; memset(&o, 0, sizeof o); launder(&o); LIB(libwifi_free_beacon(&o)); }
+    { struct libwifi_probe_req o; memset(&o, 0, sizeof o); launder(&o); LIB(libwifi_free_probe_req(&o)); }
+    { struct libwifi_probe_resp o; memset(&o, 0, sizeof o); launder(&o); LIB(libwifi_free_probe_resp(&o)); }
+    { struct libwifi_assoc_req o; memset(&o, 0, sizeof o); launder(&o); LIB(libwifi_free_assoc_req(&o)); }
+    { struct libwifi_assoc_resp o; memset(&o, 0, sizeof o); launder(&o); LIB(libwifi_free_assoc_resp(&o)); }
+    { struct libwifi_reassoc_req o; memset(&o, 0, sizeof o); launder(&o); LIB(libwifi_free_reassoc_req(&o)); }
+    { struct libwifi_reassoc_resp o; memset(&o, 0, sizeof o); launder(&o); LIB(libwifi_free_reassoc_resp(&o)); }
+    { struct libwifi_auth o; memset(&o, 0, sizeof o); launder(&o); LIB(libwifi_free_auth(&o)); }
+    { struct libwifi_deauth o; memset(&o, 0, sizeof o); launder(&o); LIB(libwifi_free_deauth(&o)); }
+    { struct libwifi_disassoc o; memset(&o, 0, sizeof o); launder(&o); LIB(libwifi_free_disassoc(&o)); }
+    { struct libwifi_timing_advert o; memset(&o, 0, sizeof o); launder(&o); LIB(libwifi_free_timing_advert(&o)); }
+    { struct libwifi_action o; memset(&o, 0, sizeof o); launder(&o); LIB(libwifi_free_action(&o)); LIB(libwifi_free_action_detail(&o.fixed_parameters.details)); }
+    { struct libwifi_tagged_parameter o; memset(&o, 0, sizeof o); launder(&o); LIB(libwifi_free_tag(&o)); }
     printf("freezero ok");
     finish();
 }
